@@ -213,20 +213,28 @@ def h_disjoint_no_error(axis):
 
 
 class _EmptyGeom:
-    """what shapely hands back for the intersection of two footprints that do not meet"""
+    """a footprint in some CRS whose intersection with any other footprint is empty (what shapely
+    hands back for footprints that do not meet); combining two of them in different CRSs raises,
+    as every combining operation does (C01)"""
 
     is_empty = True
-    crs = None
+
+    def __init__(self, crs=None):
+        from odc.geo.crs import norm_crs
+
+        self.crs = norm_crs(crs)
 
     def __and__(self, o):
+        from odc.geo.geom import CRSMismatchError
+
+        if isinstance(o, _EmptyGeom) and o.crs != self.crs:
+            raise CRSMismatchError((self.crs, o.crs))
         return self
 
     __rand__ = __and__
 
     def to_crs(self, crs, *a, **kw):
-        g = _EmptyGeom()
-        g.crs = crs
-        return g
+        return _EmptyGeom(crs)
 
     @property
     def boundingbox(self):
@@ -239,7 +247,7 @@ class _EmptyGeom:
         return True
 
 
-def h_disjoint_general_path():
+def h_disjoint_general_path(src_crs="epsg:4326", dst_crs="epsg:3857"):
     """different CRSs, footprints that do not meet (the projection library's verdict is the
     stub): the dependency graph is empty, not an error"""
     from affine import Affine
@@ -249,8 +257,9 @@ def h_disjoint_general_path():
     if symx.concrete_mode():
         from odc.geo.types import wh_
 
-        dst = gbx.GeoboxTiles(gbx.GeoBox(wh_(40, 30), Affine(10, 0, 1000, 0, -10, 5000), 3857), (10, 10))
-        src = gbx.GeoboxTiles(gbx.GeoBox(wh_(40, 30), Affine(0.01, 0, 100, 0, -0.01, -20), 4326), (10, 10))
+        geographic = src_crs in ("epsg:4326", "epsg:4283")
+        dst = gbx.GeoboxTiles(gbx.GeoBox(wh_(40, 30), Affine(10, 0, 1000, 0, -10, 5000), dst_crs), (10, 10))
+        src = gbx.GeoboxTiles(gbx.GeoBox(wh_(40, 30), Affine(0.01, 0, 100, 0, -0.01, -20) if geographic else Affine(10, 0, 9000000, 0, -10, 500000), src_crs), (10, 10))
         try:
             deps = dst.grid_intersect(src)
         except Exception as e:  # noqa: BLE001
@@ -258,12 +267,13 @@ def h_disjoint_general_path():
             return
         prove("empty_graph_not_an_error", all(len(v) == 0 for v in deps.values()))
         return
-    src_g = mk_gbox(64, 64, "epsg:4326", Affine(Real("sa"), 0.0, Real("sc"), 0.0, Real("se"), Real("sf")))
-    dst_g = mk_gbox(32, 32, "epsg:3857", Affine(Real("da"), 0.0, Real("dc"), 0.0, Real("de"), Real("df")))
+    src_g = mk_gbox(64, 64, src_crs, Affine(Real("sa"), 0.0, Real("sc"), 0.0, Real("se"), Real("sf")))
+    dst_g = mk_gbox(32, 32, dst_crs, Affine(Real("da"), 0.0, Real("dc"), 0.0, Real("de"), Real("df")))
     src = gbx.GeoboxTiles(src_g, (32, 32))
     dst = gbx.GeoboxTiles(dst_g, (16, 16))
-    saved = gbx.GeoBoxBase.footprint
-    gbx.GeoBoxBase.footprint = lambda self, crs, buffer=0, npoints=100: _EmptyGeom()
+    saved = (gbx.GeoBoxBase.footprint, gbx.GeoBoxBase.__dict__["extent"])
+    gbx.GeoBoxBase.footprint = lambda self, crs, buffer=0, npoints=100: _EmptyGeom(crs)
+    gbx.GeoBoxBase.extent = property(lambda self: _EmptyGeom(self.crs))
     try:
         try:
             deps = dst.grid_intersect(src)
@@ -271,7 +281,7 @@ def h_disjoint_general_path():
             prove("empty_graph_not_an_error", False)
             return
     finally:
-        gbx.GeoBoxBase.footprint = saved
+        gbx.GeoBoxBase.footprint, gbx.GeoBoxBase.extent = saved
     prove("empty_graph_not_an_error", all(len(v) == 0 for v in deps.values()))
 
 
@@ -349,7 +359,7 @@ OBLIGATIONS = [
        descr="grid_intersect (linear path): every source tile overlapping the mapped destination tile by more than a sliver is listed for it; one entry per destination tile",
        functions=("odc.geo.geobox.GeoboxTiles.grid_intersect", "odc.geo.geobox.GeoboxTiles._grid_intersect_linear", "odc.geo.geobox.GeoboxTiles.tiles", "odc.geo.geobox.GeoboxTiles.range_from_bbox", "odc.geo.geom.BoundingBox.transform", "odc.geo.geom.BoundingBox.round"),
        bounds="scale grid x mirroring; destination <= 2 tiles, source <= 4 tiles along the symbolic axis (image sizes symbolic within that); translation symbolic", setup=setup, timeout_ms=30000, deadline_s=1500),
-    Ob("Q4_disjoint_general_path", h_disjoint_general_path, fixed(), descr="different CRSs, footprints that do not meet: the dependency graph is empty rather than an error",
+    Ob("Q4_disjoint_general_path", h_disjoint_general_path, fixed(dict(), dict(src_crs="epsg:4283", dst_crs="epsg:3857"), dict(src_crs="epsg:32633", dst_crs="epsg:3857"), dict(src_crs="epsg:3857", dst_crs="epsg:4283")), descr="different CRSs, footprints that do not meet: the dependency graph is empty rather than an error",
        functions=("odc.geo.geobox.GeoboxTiles.grid_intersect", "odc.geo.geobox.GeoboxTiles.tiles", "odc.geo.geobox.GeoboxTiles.range_from_bbox"),
        bounds="symbolic axis-aligned GeoBoxes in two CRSs", stubs=("GeoBox.footprint returns the empty geometry shapely gives for footprints that do not meet (NaN bounding box); the replay uses real disjoint rasters in EPSG:3857 / EPSG:4326",), setup=setup),
     Ob("Q5_footprint_buffer", h_footprint_buffer, fixed(), descr="footprint(crs, buffer=<pixels>) buffers outwards by that many source pixels whatever the signs of the resolution",
